@@ -3,7 +3,7 @@
 (condition of the first `if` inside the while loop), translated from the clang JSON AST into a
 boolean function of (len, kMaxMessageLen, kMinMessageLen).  coq/C18_GenLink.v proves it equal
 to C18_Model.length_bad, so editing the test in the source breaks a proof obligation."""
-import os, sys
+import os, sys, re
 sys.path.insert(0, os.path.dirname(os.path.abspath(__file__)))
 import cxxast
 
@@ -46,6 +46,141 @@ def tr_bool(n):
     raise cxxast.Untranslatable("boolean expression %s" % k)
 
 
+# ---------------------------------------------------------------------------------------------
+# Every comparison of the decoders, in source order: <function>_cmp<k>; the while condition of
+# onMessage; the integer / pointer arguments of the calls that move data (retrieve, parse,
+# validateChecksum, asInt32, checksum, memcmp, ensureWritableBytes, hasWritten, retrieveUntil,
+# setPath ...): <function>_call<k>_<callee>[_arg<j>]; asserts: <function>_assert<k>.
+# Pointers are their addresses (Z); *(p) is `deref p` with `deref : Z -> Z` a parameter; a
+# character literal is its code.  coq/C18_GenLink.v proves each equal to the model's test.
+from gen_C10 import G as G10, is_assert, assert_text, text_of
+
+CMPOPS = ("==", "!=", "<", "<=", ">", ">=")
+FUNCS = [
+    ("muduo/net/protobuf/ProtobufCodecLite.cc", "ProtobufCodecLite::onMessage", "onMessage"),
+    ("muduo/net/protobuf/ProtobufCodecLite.cc", "ProtobufCodecLite::parse", "parse"),
+    ("muduo/net/protobuf/ProtobufCodecLite.cc", "ProtobufCodecLite::validateChecksum", "validateChecksum"),
+    ("muduo/net/protobuf/ProtobufCodecLite.cc", "ProtobufCodecLite::fillEmptyBuffer", "fillEmptyBuffer"),
+    ("muduo/net/protobuf/ProtobufCodecLite.cc", "ProtobufCodecLite::serializeToBuffer", "serializeToBuffer"),
+    ("muduo/net/http/HttpContext.cc", "HttpContext::processRequestLine", "processRequestLine"),
+    ("muduo/net/http/HttpContext.cc", "HttpContext::parseRequest", "parseRequest"),
+    ("muduo/net/http/HttpServer.cc", "HttpServer::onMessage", "HttpServer_onMessage"),
+    ("muduo/net/http/HttpServer.cc", "HttpServer::onRequest", "HttpServer_onRequest"),
+    ("muduo/net/http/HttpResponse.cc", "HttpResponse::appendToBuffer", "appendToBuffer"),
+]
+REQUIRED = """
+onMessage_while0 onMessage_cmp0 onMessage_cmp1 onMessage_cmp2 onMessage_cmp3
+onMessage_call1_parse_arg0 onMessage_call1_parse_arg1 onMessage_call2_retrieve
+parse_call0_validateChecksum_arg0 parse_call0_validateChecksum_arg1 parse_cmp0 parse_call1_memcmp_arg0 parse_let_data parse_let_dataLen
+validateChecksum_call0_asInt32 validateChecksum_call1_checksum_arg0 validateChecksum_call1_checksum_arg1 validateChecksum_cmp0
+fillEmptyBuffer_assert0 fillEmptyBuffer_assert1
+serializeToBuffer_call0_ensureWritableBytes serializeToBuffer_cmp0 serializeToBuffer_call1_hasWritten
+processRequestLine_cmp0 processRequestLine_cmp1 processRequestLine_cmp2 processRequestLine_cmp3 processRequestLine_cmp4 processRequestLine_cmp5
+parseRequest_cmp0 parseRequest_cmp1 parseRequest_cmp2 parseRequest_cmp3
+parseRequest_call0_retrieveUntil parseRequest_call1_retrieveUntil
+HttpServer_onMessage_if0 HttpServer_onMessage_if1 HttpServer_onRequest_cmp0 appendToBuffer_if0
+""".split()
+
+
+class G18(G10):
+    def tr(self, node, want):
+        n = cxxast.strip(node)
+        k = n.get("kind")
+        if k == "CharacterLiteral":
+            return "(%d)" % int(n["value"])
+        if k == "UnaryOperator" and n.get("opcode") == "*":
+            inner = [c for c in n.get("inner", []) if isinstance(c, dict)][0]
+            names = [x.get("referencedDecl", {}).get("name") for x in cxxast.walk(inner) if x.get("kind") == "DeclRefExpr"]
+            if "__errno_location" not in names:
+                self.var("deref", "(Z -> Z)")
+                return "(deref %s)" % self.tr(inner, "Z")
+        if k in ("CXXMemberCallExpr", "CallExpr"):
+            callee0 = cxxast.strip(n["inner"][0])
+            nm0 = callee0.get("name") or callee0.get("referencedDecl", {}).get("name")
+            # the outcome of these calls is a free variable named after the callee (arguments: see the _call facts)
+            if nm0 in ("memcmp", "parseRequest", "setMethod", "parseFromBuffer", "processRequestLine", "gotAll"):
+                return self.var(nm0, want)
+        if k in ("CXXMemberCallExpr",):
+            callee = cxxast.strip(n["inner"][0])
+            args = [c for c in n["inner"][1:] if isinstance(c, dict) and c.get("kind") != "CXXDefaultArgExpr"]
+            if callee.get("kind") == "MemberExpr" and not args:
+                # x.size() / buf->peek(): name by object and member
+                obj = cxxast.strip(callee["inner"][0]) if callee.get("inner") else {}
+                on = ""
+                if obj.get("kind") == "MemberExpr":
+                    on = obj.get("name", "").rstrip("_")
+                elif obj.get("kind") == "DeclRefExpr":
+                    on = obj.get("referencedDecl", {}).get("name", "")
+                m = callee.get("name", "?")
+                if on in ("buf", "this", "", "context", "output"):
+                    return self.var(m, want)
+                return self.var(on + "_" + m, want)
+        return super().tr(node, want)
+
+
+def emit18(defs, order, name, node, want, src):
+    g = G18()
+    try:
+        body = g.tr(node, want)
+    except cxxast.Untranslatable as e:
+        defs[name] = "(* untranslated %s: %s *)" % (name, str(e).replace("*)", ""))
+        order.append(name)
+        return
+    vs = sorted(g.vars.items())
+    args = "".join(" (%s : %s)" % (v, t) for v, t in vs)
+    src = " ".join(src.split()).replace("*)", "* )").replace("(*", "( *")
+    defs[name] = "(* %s *)\nDefinition %s%s : %s :=\n  %s." % (src, name, args, want, body)
+    order.append(name)
+
+
+def is_num(n):
+    qt = n.get("type", {}).get("qualType", "")
+    return bool(re.match(r"^(const )?(size_t|ssize_t|int|unsigned long|long|unsigned int|int\d+_t|uint\d+_t|unsigned char|char|"
+                         r"(const )?(char|void|uint8_t|unsigned char) \*(const)?|uInt|Bytef \*|const Bytef \*)$", qt))
+
+
+def facts18(fname, fn, rel, defs, order):
+    cnt = {"cmp": 0, "assert": 0, "call": 0, "while": 0, "if": 0}
+
+    def visit(n):
+        k = n.get("kind")
+        kids = [c for c in n.get("inner", []) or [] if isinstance(c, dict)]
+        if is_assert(n):
+            emit18(defs, order, "%s_assert%d" % (fname, cnt["assert"]), kids[0], "bool", assert_text(n))
+            cnt["assert"] += 1
+            return
+        if k == "WhileStmt":
+            emit18(defs, order, "%s_while%d" % (fname, cnt["while"]), kids[0], "bool", "while (" + text_of(kids[0], rel) + ")")
+            cnt["while"] += 1
+            for c in kids[1:]:
+                visit(c)
+            return
+        if k == "IfStmt":
+            emit18(defs, order, "%s_if%d" % (fname, cnt["if"]), kids[0], "bool", "if (" + text_of(kids[0], rel) + ")")
+            cnt["if"] += 1
+        if k == "BinaryOperator" and n.get("opcode") in CMPOPS:
+            emit18(defs, order, "%s_cmp%d" % (fname, cnt["cmp"]), n, "bool", text_of(n, rel))
+            cnt["cmp"] += 1
+            # comparisons nested inside the operands (memcmp(...) == 0) still get their call facts
+        if k == "VarDecl" and kids and is_num(n) and n.get("name") in ("data", "dataLen", "len", "byte_size", "close"):
+            emit18(defs, order, "%s_let_%s" % (fname, n.get("name")), kids[-1], "Z", text_of(n, rel))
+        if k in ("CXXMemberCallExpr", "CallExpr"):
+            callee = cxxast.strip(kids[0])
+            nm = callee.get("name") or callee.get("referencedDecl", {}).get("name")
+            args = [c for c in kids[1:] if c.get("kind") != "CXXDefaultArgExpr"]
+            iargs = [a for a in args if is_num(a)]
+            if nm in ("retrieve", "parse", "validateChecksum", "asInt32", "checksum", "memcmp", "ensureWritableBytes",
+                      "hasWritten", "retrieveUntil", "appendInt32", "prepend") and iargs:
+                base = "%s_call%d_%s" % (fname, cnt["call"], nm)
+                cnt["call"] += 1
+                for j, a in enumerate(iargs):
+                    emit18(defs, order, base if len(iargs) == 1 else "%s_arg%d" % (base, j), a, "Z", text_of(n, rel))
+        for c in kids:
+            visit(c)
+
+    visit(cxxast.body(fn))
+
+
 def main():
     out = ["(* GENERATED by lib/gen_C18.py from %s -- do not edit *)" % cxxast.REPO,
            "From Coq Require Import ZArith Bool.", "Local Open Scope Z_scope.", "Local Open Scope bool_scope.", ""]
@@ -64,9 +199,24 @@ def main():
         out.append("(* %s, ProtobufCodecLite::onMessage, first if of the while loop: %s *)" % (REL, src))
         out.append("Definition onMessage_length_bad (len kMaxMessageLen kMinMessageLen : Z) : bool :=")
         out.append("  %s." % body)
+        out.append("")
     except Exception as e:  # noqa
         out.append("(* MISSING onMessage_length_bad: %s *)" % str(e).replace("*)", ""))
         msgs.append("MISSING onMessage_length_bad")
+    defs, order = {}, []
+    for rel, qual, fname in FUNCS:
+        try:
+            facts18(fname, cxxast.function_decl(rel, qual), rel, defs, order)
+        except Exception as e:  # noqa
+            out.append("(* MISSING %s: %s *)" % (fname, str(e).replace("*)", "")))
+            msgs.append("MISSING %s" % fname)
+    for nm in order:
+        out.append(defs[nm])
+        out.append("")
+    for r in REQUIRED:
+        if r not in defs or defs[r].startswith("(* untranslated"):
+            out.append("(* MISSING %s *)" % r)
+            msgs.append("MISSING %s" % r)
     txt = "\n".join(out) + "\n"
     path = os.path.join(cxxast.ROOT, "coq/Gen_C18.v")
     old = open(path).read() if os.path.exists(path) else None
